@@ -93,7 +93,7 @@ class Query:
 
         This should only be called by the framework code
         """
-        return await self._middlewares[0](self)
+        return await self.next()
 
 
 class BaseSession:
